@@ -118,6 +118,14 @@ func work(w *mon.W) {
 		}
 	}
 	e := rig.NewEngine(opt, func(e *route.Engine) { e.NoRoute(handler(st)) })
+	// engines with other request-body limits (same state object: cases run one at a time);
+	// a body whose length equals the limit exactly is within the limit
+	limitEngines = map[int]*route.Engine{}
+	for _, lim := range []int{8192, 4096, 100, 0} {
+		lim := lim
+		o := rig.Options(func(o *config.Options) { o.StreamRequestBody = true; o.MaxRequestBodySize = lim })
+		limitEngines[lim] = rig.NewEngine(o, func(e *route.Engine) { e.NoRoute(handler(st)) })
+	}
 	// real servers on loopback for both transports (streaming on)
 	type lbs struct {
 		s  *loop.Server
@@ -219,6 +227,8 @@ func sconnEnd(r *mon.Rand) sconn.End {
 	return sconn.EOF
 }
 
+var limitEngines map[int]*route.Engine
+
 type fixed struct {
 	L       int
 	chunked bool
@@ -273,6 +283,7 @@ func oneConn(w *mon.W, c *mon.Case, e *route.Engine, st *state, fx *fixed, lb *l
 	r := c.R
 	id := c.G*1000 + uint64(r.Intn(1000))
 	var L, stop int
+	limit := -1
 	var chunked bool
 	var chunks []int
 	if fx != nil {
@@ -286,6 +297,19 @@ func oneConn(w *mon.W, c *mon.Case, e *route.Engine, st *state, fx *fixed, lb *l
 			L = r.Intn(80)
 		}
 		chunked = r.Bool()
+		if lb == nil && e != nil && r.Chance(5) {
+			// a configured body limit, with a body of exactly (or just under) that size
+			limit = r.Int(8192, 4096, 100, 0)
+			e = limitEngines[limit]
+			switch {
+			case limit == 0:
+				L = r.Int(8191, 8192, 8193, 100)
+			case r.Bool():
+				L = limit
+			default:
+				L = limit - 1 - r.Intn(3)
+			}
+		}
 		stop = -1
 		if !r.Chance(3) {
 			stop = r.Intn(L + 1)
@@ -306,7 +330,7 @@ func oneConn(w *mon.W, c *mon.Case, e *route.Engine, st *state, fx *fixed, lb *l
 		if len(cs) > 30 {
 			cs = cs[:30]
 		}
-		return map[string]interface{}{"body_len": L, "chunked": chunked, "chunks": cs, "stop_after": stop, "read_sizes": pl.readSizes, "planted_request_text": plant, "policy": policy, "frag_sizes": wire.FragSizes(frags), "buf": buf, "loopback": lb != nil, "netpoll": lb != nil && lb.Netpoll}
+		return map[string]interface{}{"body_len": L, "chunked": chunked, "chunks": cs, "stop_after": stop, "read_sizes": pl.readSizes, "planted_request_text": plant, "policy": policy, "frag_sizes": wire.FragSizes(frags), "buf": buf, "max_request_body_size": limit, "loopback": lb != nil, "netpoll": lb != nil && lb.Netpoll}
 	}
 	var res *rig.Result
 	if lb != nil {
@@ -330,6 +354,12 @@ func oneConn(w *mon.W, c *mon.Case, e *route.Engine, st *state, fx *fixed, lb *l
 		res = rig.Serve(e, sc, buf, false, 15*time.Second)
 	}
 	w.Count("connections", 1)
+	if limit >= 0 {
+		w.Count("connections_with_body_limit", 1)
+		if L == limit && limit > 0 {
+			w.Count("bodies_exactly_at_limit", 1)
+		}
+	}
 	if res.Hang {
 		c.Violate("hang", "Serve did not finish on a finite input (handler blocked?)\n%s", trunc(res.Stack, 2500))
 		return
